@@ -50,6 +50,9 @@ func entries() []entry {
 	for _, in := range corpus.Fonts() {
 		es = append(es, entry{in, "font"})
 	}
+	for _, in := range corpus.FontsT1gen() {
+		es = append(es, entry{in, "font"})
+	}
 	for _, in := range corpus.AFMs() {
 		es = append(es, entry{in, "afm"})
 	}
